@@ -2,7 +2,8 @@
    untouchable; invalid files are rejected as a whole.
    Models: Monitor/Monitor.v (scan_policies), Monitor/Spec.v (the property). *)
 From Coq Require Import ZArith List Bool.
-From PK Require Import Monitor.AList Monitor.Monitor Monitor.Spec Monitor.Views Monitor.Refine Monitor.Wf.
+From PK Require Import Monitor.AList Monitor.Monitor Monitor.Spec Monitor.Views Monitor.Refine Monitor.Wf Monitor.Broken.
+From PK Require Import Monitor.Parse Monitor.ParseProofs Monitor.ParseCases.
 Import ListNotations.
 Open Scope Z_scope.
 
@@ -70,3 +71,40 @@ Example scan_refines_spec_partial_nonvacuous :
     [Some 90; Some 91; None; Some 14];
     [Some 90; Some 91; None; Some 12] ]%Z.
 Proof. split; [apply wf_histb_ok; vm_compute; reflexivity | vm_compute; split; reflexivity]. Qed.
+
+(* ------------------------------------------------------------------ invalid files *)
+(* After any history, the next scan yields the same policies in force, owners and cache
+   whether a file that is invalid is seen as changed (any mtime) or as untouched: it is
+   rejected as a whole, and a valid file that became invalid keeps its old definitions. *)
+Theorem broken_file_no_effect : forall s h fs fs', Forall wf_fs h -> wf_fs fs -> wf_fs fs' ->
+  same_but_broken fs fs' ->
+  forall q, get q (st_store (scan fs (run s h))) = get q (st_store (scan fs' (run s h))) /\
+            get q (st_map (scan fs (run s h))) = get q (st_map (scan fs' (run s h))) /\
+            get q (st_cache (scan fs (run s h))) = get q (st_cache (scan fs' (run s h))).
+Proof. exact broken_no_effect_run. Qed.
+Print Assumptions broken_file_no_effect.
+
+(* hypotheses satisfiable: b.json (valid before, mtime 2) is now invalid with mtime 9, versus invalid with mtime 2 (= unseen) *)
+Example broken_file_no_effect_nonvacuous :
+  let fs  := [(0, (1, Some [(2, 10); (0, 13)])); (1, (9, None))] in
+  let fs' := [(0, (1, Some [(2, 10); (0, 13)])); (1, (2, None))] in
+  wf_fs fs /\ wf_fs fs' /\ same_but_broken fs fs' /\
+  map (fun q => get q (st_store (scan fs (run [(0, 90)] (firstn 2 good_history))))) [0; 2; 3] = [Some 90; Some 11; Some 12].
+Proof.
+  simpl. repeat split; try (apply wf_fsb_ok; vm_compute; reflexivity).
+  intros g. destruct (Z.eq_dec g 1) as [->|H].
+  - right. exists 9, 2. split; reflexivity.
+  - left. simpl. destruct (g =? 0); [reflexivity|].
+    destruct (g =? 1) eqn:E; [apply Z.eqb_eq in E; contradiction | reflexivity].
+Qed.
+
+(* ------------------------------------------------------------------ the parser *)
+(* Whatever the file holds - not JSON, or any JSON value - and whatever the enumerations
+   contain, read_policy_from_file returns a result or raises ValueError; the model has a
+   third outcome (any other exception: AttributeError from .items()/.get() of a non-dict),
+   and it is unreachable. *)
+Theorem parser_total_valueerror : forall object_types operations permissions sections blob,
+  (exists r, read_policy object_types operations permissions sections blob = Ok r) \/
+  read_policy object_types operations permissions sections blob = ValueErr.
+Proof. exact read_policy_total. Qed.
+Print Assumptions parser_total_valueerror.
